@@ -169,6 +169,19 @@ def mutants(only, tier: str, keep_going=True) -> int:
                     bad += 1
         finally:
             shutil.rmtree(tmp, ignore_errors=True)
+    # persist (merge) the table: DESIGN.md 9.6 is generated from it
+    resf = os.path.join(core.VERIF, "mutant_results.json")
+    try:
+        table = json.load(open(resf))
+    except Exception:
+        table = {}
+    for r in rows:
+        if len(r) >= 5:
+            table.setdefault(r[0], {})[r[1]] = {
+                "result": r[2], "tier": tier, "seconds": r[3],
+                "first_violation": r[4].replace("#   ", "")}
+    with open(resf, "w") as f:
+        json.dump(table, f, indent=1, sort_keys=True)
     for r in rows:
         print("# mutant", *r)
     print(f"# mutants: {len(rows)} (mutant, check) pairs, {bad} not detected")
